@@ -146,8 +146,13 @@ class C12(object):
         if big:
             ns, nf = rnd.randint(4, 32), rnd.randint(4, 32)
         cfg = enginea.draw_cfg(rnd, max_team=16)
+        wide = (not big) and rnd.random() < 0.012
+        if wide:
+            # a detector-sized frame (the kernels treat frames of 65536 pixels and more as worth a team of their own)
+            ns, nf = rnd.choice([(256, 256), (128, 512), (300, 220), (257, 256)])
+            nfr = rnd.choice([2, 2, 3])
         ostep = rnd.choice([1.0, 0.25, -0.5, 0.0, 2.5])
-        tier2 = (not big) and rnd.random() < 0.3
+        tier2 = (not big) and (not wide) and rnd.random() < 0.3
         if tier2:
             return {"entry": "peaksearch-pipeline", "tier2": True, "nfr": min(nfr, 8), "ns": min(ns, 12), "nf": min(nf, 12),
                     "wseed": rnd.getrandbits(48), "threshold": rnd.choice([0.0, 5.0]), "omega0": 0.0, "ostep": rnd.choice([1.0, 0.25, -0.5]),
@@ -160,7 +165,7 @@ class C12(object):
         d = {"entry": "labelimage-history", "nfr": nfr, "ns": ns, "nf": nf, "wseed": rnd.getrandbits(48),
              "threshold": rnd.choice([0.0, 5.0, 100.0, -5000.0]), "omega0": rnd.choice([0.0, -10.0, 90.5]), "ostep": ostep,
              "write2d": rnd.random() < 0.4, "cfg": cfg, "reuse_buffer": rnd.random() < 0.3}
-        if not big and rnd.random() < 0.2:
+        if not big and not wide and rnd.random() < 0.2:
             # a second labelimage (another threshold / detector, as the threaded peaksearcher runs them) whose GIL-free
             # kernel calls overlap in time with those of the first
             d["concurrent"] = {"wseed": rnd.getrandbits(48), "nfr": rnd.choice([2, 3, 4]), "ns": rnd.choice([4, 6, 9]),
@@ -249,6 +254,7 @@ class C12(object):
         meas = enginea.run_measures(st, cfg)
         meas["scene_kind"] = {kind: 1}
         meas["frames"] = nfr
+        meas["frames_of_65536_pixels_or_more"] = nfr if ns * nf >= 65536 else 0
         meas["components"] = ncomp
         meas["components_spanning_frames"] = multi
         meas["empty_frames"] = int((M.reshape(nfr, -1).sum(axis=1) == 0).sum())
